@@ -206,6 +206,34 @@ func runEntropy(out string, thorough bool) error {
 	}
 	ok, dups := witnessCollide(total)
 	emit("collide", "DeriveFromSibling", ifs(ok, "duplicate-session-ids-among-concurrent-generators", "none"), ok, map[string]any{"generators": total, "duplicates": dups})
+	// W4 concurrent logins through one server instance
+	workers, per := 16, 400
+	if thorough {
+		per = 4000
+	}
+	tmp, err := os.MkdirTemp("", "verif-entropy")
+	if err != nil {
+		return err
+	}
+	defer os.RemoveAll(tmp)
+	ok, how, n2, err := witnessConcurrentServer(tmp, workers, per)
+	if err != nil {
+		return err
+	}
+	emit("concurrentServer", "DeriveFromSibling", how, ok, map[string]any{"logins": n2, "workers": workers})
+	// W5 slow entropy source
+	derived, applies, what := witnessSlowSource()
+	emit("slowSource", "DeriveWhenSourceSlow", what, derived, map[string]any{"verdictApplies": applies})
+	// W6 restart
+	self := os.Getenv("VERIF_SELF")
+	if self == "" {
+		self = os.Args[0]
+	}
+	ok, how, err = witnessRestart(self)
+	if err != nil {
+		return err
+	}
+	emit("restart", "DeriveFromEarlierRun", how, ok, map[string]any{"processes": 2})
 	return nil
 }
 
